@@ -11,6 +11,7 @@ stateless, regex-free reference, so agreement at every point of every history
 evictions that really happened.
 """
 import hashlib
+import unicodedata
 
 import anytree.resolver as resolver_mod
 from anytree import Resolver, ResolverError
@@ -51,12 +52,12 @@ ASCII_NAMES = (
 )
 # letters whose case mapping is one-to-one in both str.upper() (used by get) and re.IGNORECASE (used by glob)
 # may appear together with ignorecase resolvers; the others (sharp s, dotted capital I, ...) only without
-SIMPLE_CASE_NAMES = ("ä", "Ä", "éa", "Éa", "ñ", "Ñb")
+SIMPLE_CASE_NAMES = ("ä", "Ä", "éa", "Éa", "ñ", "Ñb", "e\u0301a")  # (the last one: the decomposed spelling of the third)
 NONASCII_NAMES = ("ß", "İx", "日本", "ǅ")
 
 
 def case_safe(name):
-    return all(ord(ch) < 128 or ch in "äÄéÉñÑ" for ch in name)
+    return all(ord(ch) < 128 or ch in "äÄéÉñÑ\u0301\u0308\u0303" for ch in name)
 
 
 def names_for(sep, ascii_only, rng, k):
@@ -274,6 +275,11 @@ def gen_pattern(rng, snap, names, sep, start):
         else:
             comps.append(rng.choice(("zz", "*", "?", "??", "*a*", "a*", "*b")))
     comps = [c for c in comps if sep not in c]
+    for k, c in enumerate(comps):
+        if any(ord(ch) > 127 for ch in c) and rng.random() < 0.3:
+            # the same text in the other Unicode normal form is another string: it names nobody (get and glob alike)
+            alt = unicodedata.normalize("NFD", c)
+            comps[k] = alt if alt != c else unicodedata.normalize("NFC", c)
     path = sep.join(comps)
     if absolute:
         path = sep + path
